@@ -262,6 +262,8 @@ impl EventGen for GroupElement {
         // do any required transformations on the <g> itself here.
         let mut new_el = self.0.clone();
         new_el.eval_attributes(context)?;
+        // the element as emitted: its box (transform) is computed from evaluated attributes
+        let evaluated_el = new_el.clone();
 
         // push variables onto the stack
         context.push_element(&self.0);
@@ -289,7 +291,7 @@ impl EventGen for GroupElement {
         context.pop_element();
 
         // Messy! should probably have a id->bbox map in context
-        let mut new_el = self.0.clone();
+        let mut new_el = evaluated_el;
         new_el.content_bbox = content_bb;
         context.update_element(&new_el);
         context.set_prev_element(&new_el);
